@@ -1,5 +1,6 @@
 import OV.Model.C13Export
 import OV.Lemmas.C13
+import OV.Lemmas.C13Roundtrip
 import Std.Data.String.ToInt
 /-!
 # C13 — ONNX → Python (`proto2python`) → ONNX round-trips to an equivalent model
@@ -302,5 +303,86 @@ theorem attr_input_clash_witness :
        [.mk "Elu" "" "" ["X"] ["y"] [("alpha", .ref "v2")]]⟩).toOption
       = some ["sig af_w(v2|v2)", "L1 call v1 = opset18.Elu(v2_0|alpha=@v2)", "L1 return v1"] := by
   decide +kernel
+
+
+/-! ## the round trip on the straight-line fragment (`export_roundtrip`) -/
+
+/-- **On the fragment the exporter prints exactly `exportStraight`**: for every option tuple with `rename=False`,
+`inline_const=False` (either value of `use_operators`, `skip_initializers`), every straight-line model of the
+fragment (`straightModel`: no initializers, standard-domain plain nodes with printable attributes, operator sugar
+only where it is symmetric), the string-level model tied to the real exporter returns the rendering of the
+structured program the next theorem is about. -/
+theorem export_prints_straight (o : Opts) (m : ModelP) (h : straightModel o m = true) (d : Nat) :
+    exportModel o (d + 1) m = .ok (renderProg (exportStraight o m)) :=
+  exportModel_straight o m h d
+
+/-- **`export_roundtrip_partial`** — ONNX → Python → ONNX on the straight-line fragment: if the clean-up is
+injective on the names of the graph, the graph the converter reads back from the exported program
+(`progToGraph`: one node per statement, callee through the import table, operator sugar through the converter's
+own `primop_map`, `None` ↦ absent input) computes the same outputs as the original **for every operator semantics
+`S` (uninterpreted), every argument list**, and has the cleaned signature.  *Partial*: (1) the injectivity
+hypothesis is forced (D14, `export_names_injective_refuted`); (2) `straightModel` excludes exactly the asymmetric
+sugar cases (`sugar_table_asymmetry`, `sugar_reads_back_without_attributes`), inlined constants (C13-POW-NEG,
+`pow_neg_literal_refuted`; C13-NANINF) and control flow (observed by the execution oracle, not proved). -/
+theorem export_roundtrip_partial {V : Type} (S : Sem V) (o : Opts) (m : ModelP)
+    (hfrag : straightModel o m = true)
+    (hinj : ∀ a ∈ namesOfGraph 0 m.graph, ∀ b ∈ namesOfGraph 0 m.graph, cleanup a = cleanup b → a = b)
+    (args : List V) :
+    evalGraph S (progToGraph (exportStraight o m)) args = evalGraph S m.graph args
+    ∧ (progToGraph (exportStraight o m)).inputs = m.graph.inputs.map cleanup
+    ∧ (progToGraph (exportStraight o m)).outputs = m.graph.outputs.map cleanup := by
+  have hsyn := progToGraph_exportStraight o m hfrag
+  have h' := hfrag
+  unfold straightModel at h'
+  simp only [Bool.and_eq_true, List.all_eq_true, bne_iff_ne, ne_eq] at h'
+  obtain ⟨⟨⟨⟨⟨⟨⟨⟨⟨⟨_, _⟩, _⟩, _⟩, _⟩, _⟩, hin⟩, hout⟩, _⟩, _⟩, _⟩ := h'
+  rw [hsyn]
+  refine ⟨?_, rfl, rfl⟩
+  exact evalGraph_ren S cleanup m.graph ⟨hinj, fun a _ ha => cleanup_ne_empty a ha⟩ hin hout args
+
+/-- non-vacuity: a model of the fragment with names that need cleaning, sugar on, and injective clean-up -/
+example :
+    straightModel ⟨false, true, false, true⟩
+      ⟨"g", none, [("", 18)],
+       .mk ["x.1", "5"] ["y:0"] [] 0
+        [.mk "Relu" "" "" ["x.1"] ["t.0"] [], .mk "Add" "" "" ["t.0", "5"] ["u"] [],
+         .mk "Clip" "" "" ["u", "", "5"] ["y:0"] [("dummy", .plain)]]⟩ = true := by decide
+
+/-- **Which table entries are asymmetric**: of the exporter's operator table exactly the (dead) key `"Lesser"` is
+not mapped back to itself by the converter's `primop_map` (`<` reads back as `Less`); every other entry is
+symmetric at the level of operator names. -/
+theorem sugar_table_asymmetry :
+    ∀ p ∈ opsTable, (convTable.lookup p.2 = some p.1 ↔ p.1 ≠ "Lesser") := by decide
+
+/-- **Sugar never carries attributes back**: whatever the node had, the node read from `out = a sym b` has none —
+the second asymmetry (a sugared operator whose attributes matter, e.g. `Mod`/`fmod` if `%` were added to the
+table, silently loses them); `straightModel` therefore requires sugared nodes to have no attributes. -/
+theorem sugar_reads_back_without_attributes (imports : List (String × String)) (out sym a b : String) :
+    (stmtToNode imports (.binop out sym a b)).attrs = [] ∧
+    (stmtToNode imports (.binop out sym a b)).ins.length = 2 := ⟨rfl, rfl⟩
+
+/-- … and this matters: with an attribute-sensitive semantics (`S.op` returns the number of attributes) a sugared
+`Add` carrying an attribute reads back as a different computation — the full statement without the symmetry
+hypothesis is false. -/
+theorem sugar_with_attributes_refuted :
+    let S : Sem Nat := ⟨fun _ _ attrs _ => some [attrs.length]⟩
+    let o : Opts := ⟨false, true, false, false⟩
+    let m : ModelP := ⟨"g", none, [("", 18)],
+      .mk ["x"] ["y"] [] 0 [.mk "Add" "" "" ["x", "x"] ["y"] [("fmod", .plain)]]⟩
+    evalGraph S (progToGraph (exportStraight o m)) [7] ≠ evalGraph S m.graph [7] := by
+  decide
+
+/-- **C13-POW-NEG refuted statement**: a negative scalar literal printed in front of `**` is read by Python as
+`-(3 ** x)`; with `x = 2` the intended `Pow(-3, x)` is 9, the text's value is −9.  `**` is the only symbol of the
+table for which the two readings differ (`pow_neg_only_power`). -/
+theorem pow_neg_literal_refuted :
+    evalPy (fun _ => 2) (pyRead (.lit true 3) "**" (.name "x")) = -9 ∧
+    evalPy (fun _ => 2) (intended (.lit true 3) "**" (.name "x")) = 9 := by decide
+
+theorem pow_neg_only_power (a b : Operand) (sym : String) (h : sym ≠ "**") : pyRead a sym b = intended a sym b := by
+  unfold pyRead intended
+  cases a with
+  | name s => rfl
+  | lit neg mag => cases neg <;> simp [h]
 
 end OV.Props.C13
